@@ -103,7 +103,9 @@ def leaf(B, rng, N, kind, pool):
     def s():
         return pool[int(rng.integers(len(pool)))].copy() if rng.integers(3) else gen.rand_string(rng, N)
     if kind == "number":
-        return [2, -1, 0.5, 1j, -1j, 1 + 2j, 0, 3.25][int(rng.integers(8))]
+        # includes numbers of modulus exactly 1 that are not fourth roots of unity, and near-units
+        return [2, -1, 0.5, 1j, -1j, 1 + 2j, 0, 3.25, 0.6 + 0.8j, -0.8 + 0.6j, complex(np.exp(0.3j)), 0.28 - 0.96j, 1 + 1e-9, -1j * (1 - 1e-12),
+                np.float64(-1.0), np.complex128(1j)][int(rng.integers(16))]
     if kind == "pauli":
         return B.Pauli(s(), int(rng.integers(4)))
     if kind == "mono":
@@ -297,7 +299,7 @@ def run_pairs(shard, rec, B):
                 check_trace(rec, B, N, a)
                 check_qutip(rec, B, N, a)
                 check_op(rec, B, N, "neg", a, None)
-                for c in (1, -1, 1j, -1j, 2.5, 0.5 - 1j):
+                for c in (1, -1, 1j, -1j, 2.5, 0.5 - 1j, 0.6 + 0.8j, -0.8 - 0.6j, complex(np.exp(2.0j))):
                     check_op(rec, B, N, "mul", c, a)
                     check_op(rec, B, N, "div", a, c)
                 for num in (2, -1.5 + 0.5j):
